@@ -123,6 +123,10 @@ fn catalogue() -> &'static Vec<CmdInfo> {
                     if tok.starts_with('-') && tok.len() > 1 && tok.chars().skip(1).all(|ch| ch.is_ascii_alphanumeric() || ch == '-' || ch == '_') && !flags.contains(&tok.to_string()) {
                         flags.push(tok.to_string());
                     }
+                    // annotations such as <scope>
+                    if tok.len() > 2 && tok.starts_with('<') && tok.ends_with('>') && tok[1..tok.len() - 1].chars().all(|ch| ch.is_ascii_lowercase() || ch == '_') && !flags.contains(&tok.to_string()) {
+                        flags.push(tok.to_string());
+                    }
                 }
             }
             let mut spell = cmd.aliases();
@@ -231,7 +235,8 @@ fn gen_lines(rng: &mut Rng, avoid: &[String]) -> Vec<String> {
         let coll = rng.chance(1, 2);
         let at = PRELUDE.len() + rng.usize(lines.len() - PRELUDE.len() + 1);
         lines.insert(at, format!("jdoc = json_parse {}{}", if coll { "--collection " } else { "" }, q(doc)));
-        lines.insert(at + 1, format!("jtext = json_encode {}${{jdoc}}", if coll && rng.chance(3, 4) { "--collection " } else { "" }));
+        // (plain form: the root VARIABLE NAME; collection form: the handle)
+        lines.insert(at + 1, if coll && rng.chance(3, 4) { "jtext = json_encode --collection ${jdoc}".to_string() } else if rng.chance(1, 6) { "jtext = json_encode ${jdoc}".to_string() } else { "jtext = json_encode jdoc".to_string() });
         if rng.chance(1, 2) {
             lines.insert(at + 2, "jdoc2 = json_parse ${jtext}".to_string());
         }
